@@ -180,7 +180,8 @@ def docs_stream(ctx):
         else:
             text = wt.replace("{S}", lay + body)
         for p in paths:
-            yield text + "\n", p, {"wrapper": wn}
+            # `inherit (e) v;` is followed by the code but not by the edit model (scanChain stops there)
+            yield text + "\n", p, ({"wrapper": wn, "nomodel": True} if "inherit (" in body else {"wrapper": wn})
 
 
 def ref_of_path(text, names):
